@@ -930,7 +930,7 @@ func run(c *core.Ctx) {
 		runGeometry(c)
 		return
 	}
-	c.Res.Rule = "per (encoding, type): sequences from length buckets {0,1,2,3,7,8,9,15..17,31..33,63..65,127..130,255..258,1000,1025} x value patterns (constant, ramp, extremes, alternating, random full range, small runs; levels: constant, long runs, width-filling, group patterns; byte strings: shared prefixes, empty/long, identical, small alphabet, long shared prefixes -- values keeping 15..400 bytes of the previous one with short and long suffixes, fixed-length values of 33..260 bytes), all RLE bit widths 0..8 (levels) and 0..32 (int32), an exhaustive sweep of all sequences of length <= 4 over {min,-1,0,1,max} for the delta encodings; destination buffers nil / dirty / oversized / reused, and every byte-array decode repeated into a reused destination that holds older data over its whole capacity (malformed and foreign streams: every Go decoder run a second time into such destinations, same outcome demanded). Checked per case: Go bytes == model bytes, Go decode(Go bytes) == input, specification decoder(Go bytes) == input. Non-trivial = at least 2 values; distinct by the JSON of the case. Conforming streams Go's encoders do not write: RLE / bit-packed streams built run by run (godec.go: run-length runs of any length, bit-packed runs of any number of groups; levels, int32, dictionary indexes, booleans; non-trivial = at least 2 runs) and DELTA pages (geometry.go: DELTA_BINARY_PACKED int32/int64, DELTA_LENGTH_BYTE_ARRAY, DELTA_BYTE_ARRAY produced by the model's encoder at every legal geometry -- block sizes 128..512 (thorough 768) x every mini-block count giving mini-blocks of a multiple of 32 values, 4096/1, thorough 65536/512 and 65536/2048 -- with value counts around the mini-block and block boundaries and the value patterns above plus walks whose bit width changes every 16 values; blocks in styles Go does not write where the specification decoder confirms the stream; non-trivial = more values than the first mini-block holds): Go's decoder must return exactly the values, the model of Go's decoder the same outcome. Dictionaries (dict.go): per dictionary kind, every short history of {Reset, Insert} calls on empty and pre-populated dictionaries and random long ones (Index/Lookup/Bounds/Page of the returned indexes against the inserted values; non-trivial = two inserts around a reset, or an insert into a pre-populated dictionary), and files/buffers of 2..4 row groups written through WriteRows and typed rows with and without fallback to PLAIN (non-trivial = at least 2 row groups actually written, and the fallback actually taken when a size limit is set). RLE_DICTIONARY data pages (page.go, pagefile.go): per dictionary kind, (dictionary of 1..200 values, index stream of run-length / bit-packed runs at the needed or a wider bit width, num_values) through Type.Decode / Type.NewPage into new and into reused buffers (holding the indexes of the page decoded before, or 0xA5 bytes), and column chunks of a foreign writer (dictionary page + 2..5 data pages, required / optional) through the file reader with and without poisoned pooled buffers; num_values equal to the indexes of the stream, below them by the padding of a last bit-packed group, or ABOVE them (short streams: outside Encodings.md, accepted by the library: only independence of the buffers' history is demanded, the zero extension is compared with the model); non-trivial = at least one run and two values (pages), at least two data pages (files)."
+	c.Res.Rule = "per (encoding, type): sequences from length buckets {0,1,2,3,7,8,9,15..17,31..33,63..65,127..130,255..258,1000,1025} x value patterns (constant, ramp, extremes, alternating, random full range, small runs; levels: constant, long runs, width-filling, group patterns; byte strings: shared prefixes, empty/long, identical, small alphabet, long shared prefixes -- values keeping 15..400 bytes of the previous one with short and long suffixes, fixed-length values of 33..260 bytes), all RLE bit widths 0..8 (levels) and 0..32 (int32), an exhaustive sweep of all sequences of length <= 4 over {min,-1,0,1,max} for the delta encodings; destination buffers nil / dirty / oversized / reused, and every byte-array decode repeated into a reused destination that holds older data over its whole capacity (malformed and foreign streams: every Go decoder run a second time into such destinations, same outcome demanded). Checked per case: Go bytes == model bytes, Go decode(Go bytes) == input, specification decoder(Go bytes) == input. Non-trivial = at least 2 values; distinct by the JSON of the case. Conforming streams Go's encoders do not write: RLE / bit-packed streams built run by run (godec.go: run-length runs of any length, bit-packed runs of any number of groups; levels, int32, dictionary indexes, booleans; non-trivial = at least 2 runs) and DELTA pages (geometry.go: DELTA_BINARY_PACKED int32/int64, DELTA_LENGTH_BYTE_ARRAY, DELTA_BYTE_ARRAY produced by the model's encoder at every legal geometry -- block sizes 128..512 (thorough 768) x every mini-block count giving mini-blocks of a multiple of 32 values, 4096/1, thorough 65536/512 and 65536/2048 -- with value counts around the mini-block and block boundaries and the value patterns above plus walks whose bit width changes every 16 values; blocks in styles Go does not write where the specification decoder confirms the stream; non-trivial = more values than the first mini-block holds): Go's decoder must return exactly the values, the model of Go's decoder the same outcome. Dictionaries (dict.go): per dictionary kind, every short history of {Reset, Insert} calls on empty and pre-populated dictionaries and random long ones (Index/Lookup/Bounds/Page of the returned indexes against the inserted values; non-trivial = two inserts around a reset, or an insert into a pre-populated dictionary), and files/buffers of 2..4 row groups written through WriteRows and typed rows with and without fallback to PLAIN (non-trivial = at least 2 row groups actually written, and the fallback actually taken when a size limit is set). Dictionary values are a function of small integer keys: special values and pseudo-random bytes (plain keys), and four STRUCTURED key families run through the same three scenario families (bulk typed writes of 513 / 2500 rows with 170..2500 distinct values per column, every history of at most 2 calls plus random long histories over up to 3000 distinct values, files of every kind x shape and the typed row / buffer x split with up to 400 distinct values per row group): big-endian counters (all values share their leading bytes: DECIMAL / 128-bit numbers below 2^64), little-endian counters (shared trailing bytes), one fixed byte string with one byte changed (values differing in one or two bytes), values whose two halves are equal (low = high 16 / 32 / 64 bits), each at the width of the kind (4 / 8 / 12 bytes, FIXED_LEN_BYTE_ARRAY of 1, 5, 7, 12, 16, 17 bytes, byte arrays of 16, 9, 24, 33 bytes). RLE_DICTIONARY data pages (page.go, pagefile.go): per dictionary kind, (dictionary of 1..200 values, index stream of run-length / bit-packed runs at the needed or a wider bit width, num_values) through Type.Decode / Type.NewPage into new and into reused buffers (holding the indexes of the page decoded before, or 0xA5 bytes), and column chunks of a foreign writer (dictionary page + 2..5 data pages, required / optional) through the file reader with and without poisoned pooled buffers; num_values equal to the indexes of the stream, below them by the padding of a last bit-packed group, or ABOVE them (short streams: outside Encodings.md, accepted by the library: only independence of the buffers' history is demanded, the zero extension is compared with the model); non-trivial = at least one run and two values (pages), at least two data pages (files)."
 	rng := c.Rng
 	fuzzEvery = uint32(c.N(10, 1))
 	tieEvery = uint32(c.N(2, 1))
@@ -1150,6 +1150,14 @@ func bucketOf(n int) int {
 
 func replay(c *core.Ctx, raw json.RawMessage) {
 	var cs c04Case
+	var bulk struct {
+		Kind                 string
+		Rows, Stride, Family int
+	}
+	if err := json.Unmarshal(raw, &bulk); err == nil && bulk.Kind == "dict-bulk" && bulk.Stride > 0 && bulk.Family >= 0 && bulk.Family < len(structFamilies) {
+		dictBulkCase(c, bulk.Family, bulk.Rows, bulk.Stride)
+		return
+	}
 	if err := json.Unmarshal(raw, &cs); err != nil || cs.Enc == "" {
 		c.Note("replay file does not hold an encoding case")
 		return
